@@ -114,6 +114,28 @@ Example C16_example_string_newline :           (* a raw newline in the literal b
 b""") 0 = Tok STRING 0 5 (PStr [97; 92; 110; 98]).
 Proof. vm_compute. reflexivity. Qed.
 
+Example C16_example_string_bom :               (* EF BB BF inside a literal becomes the escape backslash ufeff; length counts the 3 bytes *)
+  scan_token_at 8 [34; 97; 239; 187; 191; 98; 34] 0
+  = Tok STRING 0 7 (PStr (b "a\ufeffb")).
+Proof. vm_compute. reflexivity. Qed.
+
+Example C16_example_raw_bom :
+  scan_token_at 6 [96; 239; 187; 191; 96] 0 = Tok STRING 0 5 (PStr (b "\ufeff")).
+Proof. vm_compute. reflexivity. Qed.
+
+Example C16_example_bom_outside_literal :      (* a stray 0xEF hits the default panic(b) *)
+  scan_token_at 4 [239; 187; 191] 0 = Diag bad_byte_msg.
+Proof. vm_compute. reflexivity. Qed.
+
+(** the byte-order-mark test as the code has it today (isStringAt ranges over runes): U+FF71
+    (EF BD B1) inside a literal is replaced by the escape of U+FEFF. Not a C16 matter (the scan
+    still ends with a token); recorded because the model follows the code. With
+    [bom_at := bom_at_bytewise] the value would be the three bytes themselves. *)
+Example C16_example_bom_test_first_byte_only :
+  scan_token_at 6 [34; 239; 189; 177; 34] 0 = Tok STRING 0 5 (PStr (b "\ufeff"))
+  /\ bom_at_bytewise [34; 239; 189; 177; 34] 1 = false.
+Proof. split; vm_compute; reflexivity. Qed.
+
 Example C16_example_sinterp_token :            (* begins after the dollar sign *)
   scan_token_at 7 (b "$""a{x}""") 0 = Tok SINTERP 1 6 (PStr (b "a{x}")).
 Proof. vm_compute. reflexivity. Qed.
